@@ -324,13 +324,34 @@ def _global_state(_tree):
                     ("data_generator.py", dg), ("row_history.py", rh), ("utils/pickle.py", pk)):
         if t is None:
             raise PinError(f"{name} not found")
-    out += f"/-- `@lru_cache(maxsize=…)` of parse_date -/\ndef maxsizeParseDate : Nat := {_maxsize(find_func(tf, 'parse_date'))}\n"
-    out += f"/-- `@lru_cache(maxsize=…)` of parse_datetimespec -/\ndef maxsizeParseDatetimespec : Nat := {_maxsize(find_func(tf, 'parse_datetimespec'))}\n"
+    # since commit 885750c only the string branches of parse_date / parse_datetimespec are cached
+    def _opt_func(tree, name):
+        try:
+            return find_func(tree, name)
+        except PinError:
+            return None
+
+    def _decorated(fn):
+        return any(_is_cache_deco(ast.unparse(d)) for d in fn.decorator_list)
+
+    pd, pdt = find_func(tf, "parse_date"), find_func(tf, "parse_datetimespec")
+    pds, pdts = _opt_func(tf, "_parse_date_str"), _opt_func(tf, "_parse_datetime_str")
+    only_strings = (pds is not None and pdts is not None and not _decorated(pd) and not _decorated(pdt)
+                    and _decorated(pds) and _decorated(pdts))
+    date_cache_fn = pds if only_strings else pd
+    dt_cache_fn = pdts if only_strings else pdt
+    out += f"/-- the date caches sit on the string-only helpers, the dispatching wrappers are not cached -/\ndef cachesOnlyStrings : Bool := {'true' if only_strings else 'false'}\n"
+    out += f"/-- `@lru_cache(maxsize=…)` of {date_cache_fn.name} -/\ndef maxsizeParseDate : Nat := {_maxsize(date_cache_fn)}\n"
+    out += f"/-- `@lru_cache(maxsize=…)` of {dt_cache_fn.name} -/\ndef maxsizeParseDatetimespec : Nat := {_maxsize(dt_cache_fn)}\n"
+    out += _strlist("parseDateBody", _body(pd), "`parse_date`: datetimes and dates are answered directly, only strings go on")
+    out += _strlist("parseDatetimespecBody", _body(pdt), "`parse_datetimespec`: datetimes, `now`, `today` and dates are answered directly, other strings go on")
+    out += _strlist("parseDateStrBody", _body(pds) if pds else [], "`_parse_date_str` (cached)")
+    out += _strlist("parseDatetimeStrBody", _body(pdts) if pdts else [], "`_parse_datetime_str` (cached)")
     out += f"/-- `@lru_cache()` of randomizer -/\ndef maxsizeRandomizer : Nat := {_maxsize(find_func(sn, 'randomizer'))}\n"
     out += f"/-- `@lru_cache()` of mask_for_key -/\ndef maxsizeMaskForKey : Nat := {_maxsize(find_func(sn, 'mask_for_key'))}\n"
-    for fn_name, lean_name in (("parse_date", "parseDateParams"), ("parse_datetimespec", "parseDatetimespecParams"),
+    for fn_name, lean_name in ((date_cache_fn.name, "parseDateParams"), (dt_cache_fn.name, "parseDatetimespecParams"),
                                ("randomizer", "randomizerParams"), ("mask_for_key", "maskForKeyParams")):
-        fn = find_func(tf if fn_name.startswith("parse") else sn, fn_name)
+        fn = find_func(tf if "parse" in fn_name else sn, fn_name)
         a = fn.args
         if a.vararg or a.kwarg or a.kwonlyargs or a.defaults:
             raise PinError(f"{fn_name}: unexpected signature")
